@@ -16,7 +16,7 @@ MC = {
 def mc_for(prop, tier, wd):
     """returns list of TlcResult-like summaries"""
     out = []
-    if prop in ("C06", "C07", "C11"):
+    if prop in ("C06", "C07", "C11", "C13"):
         r, consts = p_flow.mc_sample(prop, tier, wd)
         out.append(("MC_Sample", consts, p_flow.MC_INVS[prop], r))
     if prop in MC:
@@ -94,7 +94,7 @@ def run(prop, tier, seed, replay=None):
     if c.get("outcome_Ok", 0) < 1000:
         raise core.ToolError("vacuity guard: only %d successful samples" % c.get("outcome_Ok", 0))
     tv = None
-    if prop == "C06":
+    if prop in ("C06", "C13"):
         # trace part: value of the coordinate vs. exact cumulative sums, inside TLC
         gpath, gruns, gst = p_flow.gen_graphs(tier, wd, seed)
         trace = os.path.join(wd, "trace.ndjson")
